@@ -86,24 +86,24 @@ def _check_opt_norm_specific(option: str, value: object) -> str | None:
 
 def _check_opt_trivia(option: str, value: object) -> str | None:
     if (isinstance(value, int)  # or bool
-        or (isinstance(value, str) and _re_trivia_leading.match(value))
+        or (isinstance(value, str) and value and _re_trivia_leading.match(value))
         or (isinstance(value, tuple)
             and (
                 not value
                 or ((l := len(value)) == 1
                     and (
                         isinstance(t0 := value[0], int)
-                        or (isinstance(t0, str) and _re_trivia_trailing.match(t0))
+                        or (isinstance(t0, str) and t0 and _re_trivia_trailing.match(t0))
                     )
                 )
                 or (l == 2
                     and (
                         isinstance(t0 := value[0], int)
-                        or (isinstance(t0, str) and _re_trivia_leading.match(t0))
+                        or (isinstance(t0, str) and t0 and _re_trivia_leading.match(t0))
                     )
                     and (
                         isinstance(t1 := value[1], int)
-                        or (isinstance(t1, str) and _re_trivia_trailing.match(t1))
+                        or (isinstance(t1, str) and t1 and _re_trivia_trailing.match(t1))
                     )
                 )
             )
